@@ -32,9 +32,15 @@ package stats
 //@ func (c *Collector) GetConnectionStats
 //@   property C06 C19
 //@   refines ports.StatsCollector.GetConnectionStats
+//@   requires forall k string :: xhas(c.endpoints, k) ==> xget(c.endpoints, k) != nil && xget(c.endpoints, k).activeConnections >= 0
 //@   loop 101 invariant stats != nil && fresh(stats) && (forall k string :: stats[k] >= 0)
+//@   loop 101 invariant forall k string :: has(stats, k) <==> seen(k)
+//@   loop 101 invariant forall k string :: seen(k) ==> stats[k] == xget(c.endpoints, k).activeConnections
 //@   ensures res != nil && fresh(res)
 //@   ensures forall k string :: res[k] >= 0
+// what is reported is what is counted: one entry per tracked endpoint, its gauge
+//@   ensures forall k string :: has(res, k) <==> xhas(c.endpoints, k)
+//@   ensures forall k string :: xhas(c.endpoints, k) ==> res[k] == xget(c.endpoints, k).activeConnections
 
 //@ func (c *Collector) updateLatencyBounds
 //@   property C19
